@@ -31,19 +31,31 @@ class ChainRecorder:
         self.o_get, self.o_upd, self.o_sw = Environ.GetLR, MatrixProduct._update_mps, gs.single_sweep
         rec = self
 
-        def get(self_, domain, siteidx, mps, mpo, itensor=None, method="Scratch", mps_conj=None):
-            if mps is rec.mps:
-                rec.events.append([domain, int(siteidx), method])
-            return rec.o_get(self_, domain, siteidx, mps, mpo, itensor=itensor, method=method, mps_conj=mps_conj)
+        # recorders never interfere: arguments are passed through untouched, and anything they cannot interpret is recorded as
+        # "unobserved" (which can only lead to SPEC-DRIFT, never to a violation)
+        def get(self_, *a, **k):
+            try:
+                if (a[2] if len(a) > 2 else k.get("mps")) is rec.mps:
+                    rec.events.append([a[0], int(a[1]), k.get("method", a[5] if len(a) > 5 else "Scratch")])
+            except Exception:
+                rec.events.append(["unobserved"])
+            return rec.o_get(self_, *a, **k)
 
-        def upd(self_, cstruct, cidx, *a, **k):
-            if self_ is rec.mps:
-                rec.events.append(["upd", int(cidx[0]), int(cidx[-1])])
-            return rec.o_upd(self_, cstruct, cidx, *a, **k)
+        def upd(self_, *a, **k):
+            try:
+                if self_ is rec.mps:
+                    cidx = a[1] if len(a) > 1 else k["cidx"]
+                    rec.events.append(["upd", int(cidx[0]), int(cidx[-1])])
+            except Exception:
+                rec.events.append(["unobserved"])
+            return rec.o_upd(self_, *a, **k)
 
         def sw(*a, **k):
             r = rec.o_sw(*a, **k)
-            rec.micro.append([(e, list(c)) for e, c in r[0]])
+            try:
+                rec.micro.append([(e, list(c)) for e, c in r[0]])
+            except Exception:
+                rec.micro_unobserved = True
             return r
         Environ.GetLR, MatrixProduct._update_mps, gs.single_sweep = get, upd, sw
         return self
@@ -204,8 +216,13 @@ def _chain_cases(args):
                         if gap < -TOL:
                             V(f"C08:bound:chain:{'omega' if use_omega else 'plain'}:sweep{'1' if isw == 0 else 'N'}", f"sweep {isw} window {cidx} root {k}: energy {ek} below the exact value {exact[k]}")
                             break
+            for isw, e_rep in enumerate(energies):
+                for k, ek in enumerate(np.atleast_1d(np.asarray(e_rep, dtype=float))):
+                    if (ek - exact[k]) / scale < -TOL:
+                        V(f"C08:bound:chain:reported:{'omega' if use_omega else 'plain'}", f"reported energy of sweep {isw}, root {k}: {ek} below the exact value {exact[k]}")
+                        break
             # ---- the reported list is the per-sweep minimum of those
-            if len(energies) != len(rec.micro):
+            if rec.micro and not getattr(rec, "micro_unobserved", False) and len(energies) != len(rec.micro):
                 V("C08:report:length", f"{len(energies)} reported energies for {len(rec.micro)} sweeps")
             for isw, (e_rep, sweep) in enumerate(zip(energies, rec.micro)):
                 best = min(sweep)[0]
@@ -253,7 +270,7 @@ def _chain_cases(args):
                 out["traces"] += 1
                 if rec.events != schedules[key]:
                     first = next((i for i, (a, b) in enumerate(zip(rec.events, schedules[key])) if a != b), min(len(rec.events), len(schedules[key])))
-                    V(f"C08:schedule:chain:{method}", f"recorded sweep differs from the specified schedule at event {first}: got {rec.events[first:first + 3]}, expected {schedules[key][first:first + 3]}")
+                    V(f"DRIFT:C08:schedule:chain:{method}", f"recorded sweep differs from the specified schedule at event {first}: got {rec.events[first:first + 3]}, expected {schedules[key][first:first + 3]}")
         except Exception as e:
             import traceback
             tb = traceback.format_exc(limit=4).splitlines()
@@ -420,15 +437,25 @@ class TreeRecorder:
         self.o_opt, self.o_upd = tgs.optimize_2site, TTNS.update_2site
         rec = self
 
-        def opt(snode, ttns, *a, **k):
-            rec.events.append(["opt2", rec.nodes.index(ttns.tn2bn[snode]), 0])
-            e, c = rec.o_opt(snode, ttns, *a, **k)
-            rec.micro.append(float(np.real(e)))
-            return e, c
+        def opt(*a, **k):
+            try:
+                rec.events.append(["opt2", rec.nodes.index(a[1].tn2bn[a[0]]), 0])
+            except Exception:
+                rec.events.append(["unobserved"])
+            r = rec.o_opt(*a, **k)
+            try:
+                rec.micro.append(float(np.real(r[0])))
+            except Exception:
+                pass
+            return r
 
-        def upd(self_, node, tensor, m=None, percent=0, cano_parent=True):
-            rec.events.append(["upd2", rec.nodes.index(self_.tn2bn[node]), 1 if cano_parent else 0])
-            return rec.o_upd(self_, node, tensor, m, percent, cano_parent=cano_parent)
+        def upd(self_, *a, **k):
+            try:
+                cp = k.get("cano_parent", a[4] if len(a) > 4 else True)
+                rec.events.append(["upd2", rec.nodes.index(self_.tn2bn[a[0] if a else k["node"]]), 1 if cp else 0])
+            except Exception:
+                rec.events.append(["unobserved"])
+            return rec.o_upd(self_, *a, **k)
         tgs.optimize_2site, TTNS.update_2site = opt, upd
         return self
 
@@ -499,7 +526,7 @@ def _tree_cases(args):
                 expect = one * len(procedure)
                 if rec.events != expect:
                     first = next((i for i, (a, b) in enumerate(zip(rec.events, expect)) if a != b), min(len(rec.events), len(expect)))
-                    out["viol"].append(("C08:schedule:tree", f"recorded tree sweep differs from the specified schedule at event {first}: got {rec.events[first:first + 3]}, expected {expect[first:first + 3]}", detail))
+                    out["viol"].append(("DRIFT:C08:schedule:tree", f"recorded tree sweep differs from the specified schedule at event {first}: got {rec.events[first:first + 3]}, expected {expect[first:first + 3]}", detail))
         except Exception as e:
             import traceback
             tb = traceback.format_exc(limit=4).splitlines()
@@ -602,7 +629,7 @@ def run(ctx):
         for c in o["cases"]:
             ctx.case(fingerprint=c, nontrivial=True)
         for key, what, detail in o["viol"]:
-            if key.startswith("C08"):
+            if key.startswith("C08") or key.startswith("DRIFT:C08"):
                 ctx.violation(key, what, detail)
             else:
                 other[key] = other.get(key, 0) + 1
